@@ -191,6 +191,15 @@ def run_probe(case):
 def run_api(case):
     """Overlay helper API: tweaking / rewriting / tap / on."""
     ol = Overlay()
+    if case.get("forkpre"):
+        # the instance has a history: blocks forked from it (tweaking / rewriting / tapping) that are over; nothing of them stays
+        pre = {select(t, env=ENV): 31337 for t in ("f > a", "f > b", "g > a", "h > b", "f > c", "f > #value")}
+        with ol.tweaking(pre):
+            pass
+        with ol.rewriting({k: (lambda d: 31338) for k in pre}):
+            pass
+        with ol.tapping(select("f > a", env=ENV)):
+            pass
     tweaks = {}
     for i, h in enumerate(case["handlers"]):
         hid = i + 1
